@@ -12,6 +12,10 @@ OBLIGATIONS = [
        functions=('_rcu_barrier_complete', 'call_rcu_completion_wake_up', 'urcu_ref_put', 'free_completion'),
        desc='_rcu_barrier_complete for every count / reference state: one decrement, wake-up iff last marker and waiter asleep, work item freed once, completion freed by exactly the last put'),
 ] + [o for o in _c03.OBLIGATIONS if o.name in ('C03.O2.thread_iteration', 'C03.O4.data_free', 'C03.O1.call_rcu_enqueue')]
+# futex-wait loops of the helper / of rcu_barrier (shared with C02; late import via engine/check.py)
+def _shared():
+    from obligations import C02 as _c02
+    return [o for o in _c02.OBLIGATIONS if o.name in ('C02.O3.completion_wait', 'C02.O3.call_rcu_wait')]
 META = {
     'level': 'other',
     'explanation': 'rcu_barrier is correct if (a) every helper that can still run earlier callbacks gets exactly one marker behind them, (b) helpers run callbacks FIFO (C03.O2), (c) the count/futex handshake is sound, (d) a helper leaves the helper list only with an empty queue (C03.O4). Contracts decide each of these per function; list walks are bounded to <= 2 helpers. Termination of the wait is not decided.',
